@@ -511,12 +511,50 @@ pub fn run_c04(ctx: &mut Ctx, _known: &Known) {
     }
     // keyword-adjacent and random UTF-8 strings
     let n = budget(ctx, 1500, 40000);
-    let pieces = ["and ", "or ", "not ", "not(", "all(", "of(", "int(", "str(", "string(", "flt(", "A", "B", "foo", " ", "(", ")", ",", "1", "1.5", "==", ">=", "<", "é", "日", "٣", "-", ".", "#", "[0]", "_", "\t", "and", "or", "\"", "'", "*", "?", "i", "\\", "{", "}", "|", "^", "$", "+", "\u{0}", "\u{b}", "\u{c}", "\r", "\n", "\u{85}", "\u{a0}", "\u{2003}", "\u{3000}", "\u{feff}"];
+    let pieces = ["and ", "or ", "not ", "not(", "all(", "of(", "int(", "str(", "string(", "flt(", "A", "B", "foo", " ", "(", ")", ",", "1", "1.5", "==", ">=", "<", "é", "日", "٣", "-", ".", "#", "[0]", "_", "\t", "and", "or", "\"", "'", "*", "?", "i", "\\", "{", "}", "|", "^", "$", "+", "\u{0}", "\u{b}", "\u{c}", "\r", "\n", "\u{85}", "\u{a0}", "\u{2003}", "\u{3000}", "\u{feff}", "-9223372036854775808", "9223372036854775808", "-9223372036854775809", "9223372036854775807", "-1", "-0", "1e400", "-.5", "18446744073709551616"];
     for i in 0..n {
         let mut r = case_rng(ctx, i);
         let k = 1 + r.below(7);
         let s: String = (0..k).map(|_| *r.pick(&pieces)).collect();
         layer_checks(ctx, &s);
+    }
+    // rule TEXT that is not well-formed YAML (or is several documents): Rule::from_str returns
+    // (implementation only, under the watchdog)
+    {
+        let good = "detection:\n  A:\n    foo: bar\n  condition: A\ntrue_positives: []\ntrue_negatives: []\n";
+        let mut texts: Vec<String> = vec![
+            "true_negatives: [".into(), "condition: 'A".into(), "a: b: c".into(), "...".into(), "\tdetection: x".into(), "---\n---\n".into(),
+            format!("---\nheader: 1\n---\n{}", good), format!("{}---\n{}", good, good), format!("{}...\nrest", good), "detection: {A: {foo: bar}, condition: A".into(),
+            "- a\n- b: [".into(), "&a [*a]".into(), "? [\n".into(), "\u{feff}detection: x".into(), "%YAML 1.2\n---\nfoo".into(), "detection:\n  A: *nope\n  condition: A\n".into(),
+        ];
+        let m = budget(ctx, 300, 5000);
+        for i in 0..m {
+            let mut r = case_rng(ctx, 3_000_000 + i);
+            let mut t: Vec<char> = good.chars().collect();
+            for _ in 0..1 + r.below(3) {
+                let pos = r.below(t.len() + 1);
+                match r.below(3) {
+                    0 => { if pos < t.len() { t.remove(pos); } }
+                    1 => t.insert(pos.min(t.len()), *r.pick(&['[', ']', '{', '}', ':', '\'', '"', '\t', '-', '&', '*', '!', '|', '>', '#', '\n', ' ', '%', '@', '`', '?'])),
+                    _ => { if pos < t.len() { t[pos] = *r.pick(&['[', '{', ':', '\'', '"', '\t', '\n']); } }
+                }
+            }
+            texts.push(t.into_iter().collect());
+        }
+        for t in texts {
+            let line = format!("loadtext {}", crate::sx::enc(&t));
+            let imp = ctx.impl_only(&line);
+            ctx.stat("loadtext");
+            if imp.starts_with("load=ok") {
+                ctx.nontrivial.insert(hash_str(&line));
+            }
+            if imp.starts_with("PANIC") || imp.starts_with("HANG") {
+                let ex = Exchange { line: line.clone(), imp: imp.clone(), model: String::new(), agree: true, supported: false };
+                if imp.starts_with("PANIC") {
+                    ctx.violation("oracle", &format!("Rule::from_str panicked on text {:?}: {}", trunc(&t, 120), trunc(&imp, 200)), &ex, &t, true);
+                }
+            }
+        }
     }
     // malformed rules: YAML shapes in every position
     let m = budget(ctx, 800, 20000);
